@@ -1,4 +1,4 @@
-From Evm Require Import TxPipe.
+From Evm Require Import TxPipe TxPipeExt.
 From Coq Require Import Lia ZifyBool.
 Open Scope Z_scope.
 
@@ -530,6 +530,9 @@ Section Bloom.
   Definition bloom_of (ls : list log) : list Z := flat_map bits ls.
   Definition receipt_bloom (ls : list log) := bloom_of ls.
   Definition block_bloom (receipts : list (list log)) := flat_map receipt_bloom receipts.
+  Lemma receipt_bloom_is_exact ls z :
+    In z (receipt_bloom ls) <-> exists l, In l ls /\ In z (bits l).
+  Proof. unfold receipt_bloom, bloom_of. apply in_flat_map. Qed.
   Lemma block_bloom_is_union receipts z :
     In z (block_bloom receipts) <-> exists ls l, In ls receipts /\ In l ls /\ In z (bits l).
   Proof.
@@ -538,3 +541,93 @@ Section Bloom.
     - intros (ls & l & Hls & Hl & Hz). exists ls. split; [assumption|]. apply in_flat_map. eauto.
   Qed.
 End Bloom.
+
+(* ------------------------------------------------------------------ C04: balances sum to minus the burns; untouched accounts *)
+(* With the interpreter's own conservation (its movements net to minus what it destroyed: checked on every case by
+   Corr/CorrTxPipe.oracle_consistent), the balance changes over any universe containing the accounts involved sum to the
+   supply change, in every outcome. *)
+Lemma balances_follow_supply s t o l :
+  (e_vmerr o = false -> sum_moves (e_moves o) = - e_burn o) ->
+  NoDup l -> In (t_from t) l -> In FEE_COLLECTOR l -> (forall p, In p (e_moves o) -> In (fst p) l) ->
+  total l (bal (fst (deliver s t o))) - total l (bal s) = supply (fst (deliver s t o)) - supply s.
+Proof.
+  intros Hc Hnd Hs Hf Hm.
+  destruct (deliver_cases s t o); cbn [fst bal supply].
+  - lia.
+  - lia.
+  - subst sa. cbn. rewrite !total_add_to by assumption. lia.
+  - subst sa. cbn. rewrite !total_add_to by assumption. lia.
+  - assert (Hb0 : total l b0 = total l (bal s)).
+    { subst b0 refund p sa. cbn [ante_effects bal]. rewrite !total_add_to by assumption. lia. }
+    subst b. destruct (e_vmerr o); [lia|]. rewrite total_apply_moves by assumption.
+    specialize (Hc eq_refl). lia.
+Qed.
+
+(* an account that is neither the sender nor the fee collector nor named by the execution's movements keeps its
+   balance, in every outcome (in particular the EVM module account, through which every credit and debit passes) *)
+Lemma net_not_mentioned m a : (forall p, In p m -> fst p <> a) -> net m a = 0.
+Proof.
+  induction m as [|[x d] r IH]; intros H; cbn [net]; [reflexivity|].
+  assert (x <> a) by (apply (H (x, d)); left; reflexivity).
+  rewrite IH by (intros p Hp; apply H; right; exact Hp).
+  destruct (x =? a) eqn:E; lia.
+Qed.
+
+Lemma untouched_balance s t o a :
+  a <> t_from t -> a <> FEE_COLLECTOR -> (forall p, In p (e_moves o) -> fst p <> a) ->
+  bal (fst (deliver s t o)) a = bal s a.
+Proof.
+  intros Hs Hf Hm.
+  destruct (deliver_cases s t o); cbn [fst bal]; try reflexivity.
+  - subst sa. cbn. rewrite !add_to_other by lia. reflexivity.
+  - subst sa. cbn. rewrite !add_to_other by lia. reflexivity.
+  - assert (Hb0 : b0 a = bal s a).
+    { subst b0 refund p sa. cbn [ante_effects bal]. rewrite !add_to_other by lia. reflexivity. }
+    subst b. destruct (e_vmerr o); [exact Hb0|]. rewrite apply_moves_at, net_not_mentioned by assumption. lia.
+Qed.
+
+(* ------------------------------------------------------------------ C13: created-contract address and receipt bloom *)
+Section CreateAddress.
+  Variable create_addr : addr -> Z -> addr.          (* crypto.CreateAddress(sender, nonce) *)
+
+  (* the receipt reports a contract address exactly when the transaction is a creation whose execution was committed
+     without VM error, and then it is the CREATE address of (sender, nonce) *)
+  Lemma contract_address_iff s t o ls a :
+    let r := snd (deliver s t o) in
+    (exists x, receipt_ext t (create_addr (t_from t) (t_nonce t)) ls r = Some x /\ x_contract x = Some a)
+    <-> (t_create t = true /\ r_out r = Executed false /\ a = create_addr (t_from t) (t_nonce t)).
+  Proof.
+    cbv zeta. unfold receipt_ext. split.
+    - intros (x & Hx & Hc). destruct (r_out (snd (deliver s t o))) as [| | | |v]; try discriminate.
+      injection Hx as <-. cbn in Hc. destruct (t_create t); [|discriminate]. destruct v; [discriminate|].
+      cbn in Hc. injection Hc as <-. auto.
+    - intros (Hc & Ho & ->). rewrite Ho, Hc. eexists. split; reflexivity.
+  Qed.
+
+  (* no receipt, hence no reported address, unless the execution was committed *)
+  Lemma receipt_iff_executed s t o ls ca :
+    let r := snd (deliver s t o) in
+    (exists x, receipt_ext t ca ls r = Some x) <-> (exists v, r_out r = Executed v).
+  Proof.
+    cbv zeta. unfold receipt_ext. split.
+    - intros (x & Hx). destruct (r_out (snd (deliver s t o))) as [| | | |v]; try discriminate. eauto.
+    - intros (v & ->). eauto.
+  Qed.
+End CreateAddress.
+
+(* a receipt's bloom has exactly the bits of its own logs *)
+Lemma receipt_bloom_exact t ca ls r x z :
+  receipt_ext t ca ls r = Some x -> (In z (x_bloom x) <-> exists l, In l ls /\ In z l).
+Proof.
+  unfold receipt_ext. destruct (r_out r); try discriminate. intros [= <-]. cbn [x_bloom].
+  unfold bloom_of_logs. rewrite in_flat_map. reflexivity.
+Qed.
+
+(* the block bloom is the union of the receipt blooms *)
+Lemma block_bloom_bits_union rs z :
+  In z (block_bloom_bits rs) <-> exists x, In (Some x) rs /\ In z (x_bloom x).
+Proof.
+  unfold block_bloom_bits. rewrite in_flat_map. split.
+  - intros ([x|] & Hin & Hz); [eauto|inversion Hz].
+  - intros (x & Hin & Hz). exists (Some x). auto.
+Qed.
